@@ -75,5 +75,49 @@ func genSM3(repo string, write writer) {
 		}
 		leanVec(b, fn+"Consts", 32, consts)
 	}
+	// how Write counts the message length: `sm3.length += uint64(len(p)) * 8` multiplies in uint64 ("wide");
+	// `uint64(len(p) * 8)` multiplies in int and wraps on a 32-bit platform for a write of 256 MiB ("narrow")
+	shape := "?"
+	if fd := p.findFunc("SM3", "Write"); fd == nil {
+		fail("sm3.Write", "method not found")
+	} else {
+		ast.Inspect(fd.Body, func(n ast.Node) bool {
+			as, ok := n.(*ast.AssignStmt)
+			if !ok || as.Tok != token.ADD_ASSIGN || len(as.Lhs) != 1 || len(as.Rhs) != 1 {
+				return true
+			}
+			if sel, ok := as.Lhs[0].(*ast.SelectorExpr); !ok || sel.Sel.Name != "length" {
+				return true
+			}
+			isConv := func(e ast.Expr) (*ast.CallExpr, bool) {
+				c, ok := e.(*ast.CallExpr)
+				if !ok || len(c.Args) != 1 {
+					return nil, false
+				}
+				id, ok := c.Fun.(*ast.Ident)
+				return c, ok && id.Name == "uint64"
+			}
+			switch e := as.Rhs[0].(type) {
+			case *ast.BinaryExpr:
+				_, cx := isConv(e.X)
+				_, cy := isConv(e.Y)
+				if e.Op == token.MUL && (cx || cy) {
+					shape = "wide"
+				}
+			case *ast.CallExpr:
+				if c, ok := isConv(e); ok {
+					if be, ok := c.Args[0].(*ast.BinaryExpr); ok && be.Op == token.MUL {
+						shape = "narrow"
+					}
+				}
+			}
+			return true
+		})
+		if shape == "?" {
+			fail("sm3.Write", "length update of an unknown shape")
+		}
+	}
+	b.WriteString("/-- how `Write` counts the bit length: \"wide\" = the multiplication by 8 is done in uint64 -/\n")
+	b.WriteString("def lengthUpdate : String := \"" + shape + "\"\n\n")
 	write("SM3Consts.lean", b, "Gen.SM3")
 }
